@@ -47,6 +47,7 @@ EXTRA = {
     "FloatMockDataSink": Entry("sink", "Float", "Float", (("path", REQ),)),
     "FloatPayloadSource": Entry("psource", "NoData", "Float", ()),
     "FloatPayloadSink": Entry("psink", "Float", "Float", ()),
+    "VLedgerPayloadSink": Entry("psink", "Float", "Float", ()),
     "ModelFittingContextProcessor": Entry("ctx", "Any", None,
                                           (("x_values", REQ), ("y_values", REQ), ("fitting_model", REQ)),
                                           ("fit.parameters",)),
